@@ -50,13 +50,14 @@ func checkC09(c *Ctx, r *Report) {
 
 // C10 — cropping yields a prefix of every track (narrow clauses).
 func checkC10(c *Ctx, r *Report) {
-	r.Explanation = "Narrow clauses: (T-CASES) the crop switch handles every sample table box (stts, stss, ctts, stsc, stsz, sdtp, stco, co64); (E9) crop functions keep parallel/cached table members in step; (L-LOCKSTEP) in mp4ff-crop the input chunk counter of a track (trakOut.nextInChunkNr) is never incremented on a path that does not append the chunk's output offset to trakOut.chunkOffsets (the pair is inferred from the block that steps both); " +
+	r.Explanation = "Narrow clauses: (T-CASES) the crop switch handles every sample table box (stts, stss, ctts, stsc, stsz, sdtp, stco, co64); (E9) crop functions keep parallel/cached table members in step; (DEP) every chunk offset updateChunkOffsets writes depends on the first kept chunk's input offset (the quantity the kept bytes are laid out from); (L-LOCKSTEP) in mp4ff-crop the input chunk counter of a track (trakOut.nextInChunkNr) is never incremented on a path that does not append the chunk's output offset to trakOut.chunkOffsets (the pair is inferred from the block that steps both); " +
 		"(W-NARROW) no 32-bit product widened after the multiplication in the time/offset computations used by the tool; (DEP) the written mdat size depends on the accumulated byte ranges and new chunk offsets depend on the new moov size. " +
 		"Does not decide that the cut point is right, sync-sample selection, or durations."
 	ruleCoherence(c, r, map[string]bool{"StscBox": true, "SttsBox": true, "CttsBox": true, "StszBox": true})
 	ruleNarrowMul(c, r, "W-NARROW", sampleTableScope)
 	ruleCropCases(c, r)
 	ruleCropCounts(c, r)
+	ruleCropOffsetShift(c, r)
 	if n := ruleLockstep(c, r, map[string]bool{"trakOut": true}); n < 1 {
 		r.Undecided("L-LOCKSTEP", "scope", "", "the pair trakOut.nextInChunkNr ~ chunkOffsets (mp4ff-crop) was not inferred")
 	}
